@@ -1,6 +1,6 @@
 (* C07 - every returned stream behaves like an in-memory file over the object.  Statements only. *)
 From Coq Require Import List ZArith.
-From DOS Require Import Base Streams StreamsProofs.
+From DOS Require Import Generated Base Streams StreamsProofs StreamsZ.
 Import ListNotations.
 Open Scope Z_scope.
 
@@ -31,6 +31,27 @@ Theorem C07_plain_file_out_of_range : forall b t w,
   exists p, 0 <= p /\ fio_step b (Seek t w) = (RPos p, {| bcontent := bcontent b; bpos := p |}).
 Proof. exact fio_out_of_range. Qed.
 Print Assumptions C07_plain_file_out_of_range.
+
+(* The decompressing stream (packed + compressed objects), with the re-loosened cache (every stream handed out by Container:
+   has_lazy = true) or without it (validate / repack: then no whence = 2), for EVERY decompressor oracle (whatever zlib returns
+   per call), every chunk size > 0 and EVERY program of in-range operations: unless a call fails loudly (RErr: the oracle reported
+   a stall before the end of the stream, i.e. corrupt data -> ValueError; ROutOfFuel: the oracle stopped making progress), all
+   results - bytes, returned positions, tell values - are exactly those of the in-memory file. *)
+Theorem C07_decompresser_simulation : forall orc CHUNK SEEKCHUNK fuel ops s b,
+  0 < CHUNK -> 0 < SEEKCHUNK ->
+  zR s b -> all_in_range b ops = true -> (has_lazy s = true \/ no_whence2 ops) ->
+  Forall not_fail (run_ops (zsd_step orc CHUNK SEEKCHUNK fuel) s ops) ->
+  run_ops (zsd_step orc CHUNK SEEKCHUNK fuel) s ops = run_ops bio_step b ops.
+Proof. intros orc CHUNK SEEKCHUNK fuel ops s b H1 H2. exact (zsd_run_sim orc CHUNK SEEKCHUNK H1 H2 fuel ops s b). Qed.
+Print Assumptions C07_decompresser_simulation.
+
+(* the initial state of a fresh decompresser is related to the reference at position 0; the chunk sizes of the source are > 0 *)
+Theorem C07_decompresser_initial : forall pl lazy, zR (zsd_init pl lazy) {| bcontent := pl; bpos := 0 |}.
+Proof. exact zR_init. Qed.
+Theorem C07_chunk_sizes_positive : 0 < ZLIB_CHUNKSIZE /\ 0 < ZLIB_SEEK_READ_CHUNK.
+Proof. cbv. split; congruence. Qed.
+Print Assumptions C07_decompresser_initial.
+Print Assumptions C07_chunk_sizes_positive.
 
 (* regression witness of finding F2 (pre-repair seek): refuted by a concrete program *)
 Theorem C07_packed_reader_v0_refuted :
